@@ -139,17 +139,19 @@ Proof.
     destruct (_ >? UINT_VAR_MAX); [intros H; inversion H; subst; apply Same; auto; exact I|].
     destruct (_ >? MAX_PENDING_CRYPTO); [intros H; inversion H; subst; apply Same; auto; exact I|].
     destruct (handle_frame (c_crypto c) off data false) as [o r'].
-    destruct o; intros H; inversion H; subst; apply Same; auto; exact I.
+    destruct o as [|d0 f0| |]; try (intros H; inversion H; subst; apply Same; auto; exact I).
+    destruct (tls_parse _ _); intros H; inversion H; subst; apply Same; auto; exact I.
   - unfold handle_path_challenge. intros H; inversion H; subst. apply Same; [| |exact I];
       destruct (Zlen (c_chal c) <? MAX_REMOTE_CHALLENGES); reflexivity.
   - intros H; inversion H; subst. apply Same; [reflexivity|reflexivity|exact I].
   - unfold handle_new_cid.
     destruct (rpt >? seq); [intros H; inversion H; subst; apply Same; auto; exact I|].
     match goal with |- context[match ?x with Some _ => _ | None => _ end] => destruct x as [[active' avail3]|] end;
-      [|intros H; inversion H; subst; apply Same; auto; exact I].
-    match goal with |- context[if ?b then _ else _] => destruct b end; [intros H; inversion H; subst; apply Same; auto; exact I|].
-    match goal with |- context[if ?b then _ else _] => destruct b end; [intros H; inversion H; subst; apply Same; auto; exact I|].
+      [|destruct NCID_EMPTY_CLOSES; intros H; inversion H; subst; apply Same; auto; exact I].
+    destruct (1 + Zlen avail3 >? LOCAL_ACTIVE_CID_LIMIT); [intros H; inversion H; subst; apply Same; auto; exact I|].
+    match goal with |- context[if (Zlen ?p >? ?q) then _ else _] => destruct (Zlen p >? q) end; [intros H; inversion H; subst; apply Same; auto; exact I|].
     intros H; inversion H; subst. apply Same; [reflexivity|reflexivity|exact I].
+  - unfold handle_path_packet. destruct (pfind addr (c_paths c)); intros H; inversion H; subst; (apply Same; [reflexivity|reflexivity|exact I]).
 Qed.
 
 Lemma run_adv : forall ops c os c', SentOK c -> run c ops = (os, c') ->
